@@ -112,6 +112,10 @@ REWRITES = {
     "message_to_string": ("re", r"\bmessage\.to_string\(\)", "message_text(message)", "Display of an ErrorMessage (thiserror format!) -> opaque shim"),
     "tokens_from_gd_offset": ("re", r"&tokens\[gd\.offset\.\.\]", "slice_from(tokens, gd.offset)", "&s[a..] (RangeFrom indexing) -> shim, panics iff a > len"),
     "captured_mut_pos": ("re", r"&mut previous_token_pos\b", "previous_token_pos", "R6: a captured mutable local of the enclosing function becomes a `&mut` parameter of the lifted closure; `&mut x` at its uses becomes `x`"),
+    "type_tokens_walk": ("re", r"(?s)td\.info\s*\.slice\(tokens\)\s*\.iter\(\)\s*\.filter_map\(\|token\| \{.*\}\)\s*\.collect::<Vec<SemanticToken>>\(\)\s*\}\s*$", "type_tokens_walk(td.info.slice(tokens), &name_range, text, previous_token_pos)\n}", "R13 for a closure: the per-token `FnMut` closure of collect_type_dec, verified separately as a lifted function, and the `iter().filter_map(..).collect()` around it are replaced by a call of an external function (the walk over the slice in order, threading the position)"),
+    "proc_tokens_walk": ("re", r"(?s)pd\.info\s*\.slice\(tokens\)\s*\.iter\(\)\s*\.filter_map\(\|token\| \{.*\}\)\s*\.collect\(\)\s*\}\s*$", "proc_tokens_walk(pd.info.slice(tokens), &name_range, &local_declarations, &lookup_table, text, previous_token_pos)\n}", "R13 for a closure: the per-token `FnMut` closure of collect_proc_dec, verified separately as a lifted function, and the `iter().filter_map(..).collect()` around it are replaced by a call of an external function"),
+    "error_tokens_walk": ("re", r"(?s)info\.slice\(tokens\)\s*\.iter\(\)\s*\.filter_map\(\|token\| \{.*\}\)\s*\.collect::<Vec<SemanticToken>>\(\)\s*\}\s*$", "error_tokens_walk(info.slice(tokens), text, previous_token_pos)\n}", "R13 for a closure: the per-token closure of collect_error and the iterator chain around it are replaced by a call of an external function"),
+    "super_get_local_table": ("re", r"\bsuper::get_local_table\b", "get_local_table", "single file: the module path is dropped"),
     "box_as_ref": ("re", r"\bboxed\.as_ref\(\)", r"&**boxed", "Box::as_ref on &Box<T> replaced by its std body `&**self` (no vstd spec; generic over the allocator)"),
     "self_name_clone_to_callee": ("re", r"self\.name\.value\.clone\(\)", r"string_clone(&callee.value)", "captured field path `self.name` of the lifted loop body becomes the parameter `callee` (R6); String::clone -> shim"),
     "ref_ne": ("re", r"\barg_type != param_type\b", r"!datatype_eq(arg_type, param_type)", "`!=` on two `&DataType` (PartialEq for references) written as the derived comparison it resolves to"),
